@@ -249,6 +249,10 @@ func (ex *Exec) fire(before bool, kind, name string, c *ssa.CallCommon, args []V
 			continue
 		}
 		at.hits++
+		if at.sites == nil {
+			at.sites = map[token.Pos]bool{}
+		}
+		at.sites[pos] = true
 		env := ex.topEnv()
 		env = env.child()
 		env.fr = ex.fr
